@@ -1,0 +1,241 @@
+//go:build verif
+
+package app
+
+// Exports for the deterministic-simulation harness (/verif). A VerifNode is one
+// `hookaido run` instance assembled from the *real* building blocks
+// (newRuntimeState, loadAuth, newQueueStore, startServers, buildDispatchRoutes,
+// reloadConfig, mutateManagedEndpointConfig); only the glue of run() (flags,
+// logging sinks, signals, pid file, tracing, file watcher, trend ticker) is
+// left out. Compiled only with -tags verif.
+
+import (
+	"context"
+	"errors"
+	"log/slog"
+	"net"
+	"net/http"
+	"os"
+	"sync"
+
+	"github.com/nuetzliches/hookaido/internal/admin"
+	"github.com/nuetzliches/hookaido/internal/config"
+	"github.com/nuetzliches/hookaido/internal/dispatcher"
+	"github.com/nuetzliches/hookaido/internal/pullapi"
+	"github.com/nuetzliches/hookaido/internal/queue"
+	"github.com/nuetzliches/hookaido/internal/workerapi"
+)
+
+type VerifResolver interface {
+	LookupIPAddr(ctx context.Context, host string) ([]net.IPAddr, error)
+}
+
+type VerifNodeOptions struct {
+	ConfigPath string
+	DBPath     string
+	Logger     *slog.Logger
+	// WrapStore lets the harness put its scheduling/fault wrapper around the
+	// store before the servers and the dispatcher receive it.
+	WrapStore func(queue.Store) queue.Store
+	// HTTPClient carries push deliveries (its Transport is the simulated network).
+	HTTPClient *http.Client
+	Resolver   VerifResolver
+	// NoDispatcher suppresses PushDispatcher.Start (the harness starts it itself).
+	NoDispatcher bool
+}
+
+type VerifServer struct {
+	Addr    string
+	Handler http.Handler
+}
+
+type VerifNode struct {
+	Servers   []VerifServer
+	Worker    *workerapi.Server // nil unless the pull handler is reachable without a prefix wrapper
+	Push      *dispatcher.PushDispatcher
+	Deliverer *dispatcher.HTTPDeliverer
+	Store     queue.Store // as seen by servers and dispatcher (wrapped)
+	RawStore  queue.Store
+	Backend   string
+	Compiled  config.Compiled
+	Workers   int // dispatcher goroutines PushDispatcher.Start will spawn
+
+	state      *runtimeState
+	running    config.Compiled
+	reloadMu   sync.Mutex
+	configPath string
+	logger     *slog.Logger
+	closeStore func() error
+}
+
+// VerifNewNode mirrors run() from "read config" to "dispatcher started".
+func VerifNewNode(opts VerifNodeOptions) (*VerifNode, error) {
+	logger := opts.Logger
+	if logger == nil {
+		logger = newDiscardLogger()
+	}
+	data, err := os.ReadFile(opts.ConfigPath)
+	if err != nil {
+		return nil, err
+	}
+	cfg, err := config.Parse(data)
+	if err != nil {
+		return nil, err
+	}
+	compiled, res := config.Compile(cfg)
+	if !res.OK {
+		return nil, errors.New(config.FormatValidationText(res))
+	}
+
+	n := &VerifNode{Compiled: compiled, running: compiled, configPath: opts.ConfigPath, logger: logger}
+	appMetrics := newRuntimeMetrics()
+
+	state := newRuntimeState(compiled)
+	if err := state.loadAuth(compiled); err != nil {
+		return nil, err
+	}
+	n.state = state
+
+	var store queue.Store
+	upsert := func(req admin.ManagementEndpointUpsertRequest) (admin.ManagementEndpointMutationResult, error) {
+		n.reloadMu.Lock()
+		defer n.reloadMu.Unlock()
+		result, updated, err := mutateManagedEndpointConfig(n.configPath, n.running, state, logger, func(cfg *config.Config, compiled config.Compiled) (admin.ManagementEndpointMutationResult, error) {
+			return applyManagedEndpointUpsert(cfg, compiled, req, store)
+		}, "admin_management_upsert")
+		if err != nil {
+			return admin.ManagementEndpointMutationResult{}, err
+		}
+		n.running = updated
+		return result, nil
+	}
+	del := func(req admin.ManagementEndpointDeleteRequest) (admin.ManagementEndpointMutationResult, error) {
+		n.reloadMu.Lock()
+		defer n.reloadMu.Unlock()
+		result, updated, err := mutateManagedEndpointConfig(n.configPath, n.running, state, logger, func(cfg *config.Config, compiled config.Compiled) (admin.ManagementEndpointMutationResult, error) {
+			return applyManagedEndpointDelete(cfg, compiled, req, store)
+		}, "admin_management_delete")
+		if err != nil {
+			return admin.ManagementEndpointMutationResult{}, err
+		}
+		n.running = updated
+		return result, nil
+	}
+
+	raw, backend, closeStore, err := newQueueStore(compiled, opts.DBPath, "")
+	if err != nil {
+		return nil, err
+	}
+	n.RawStore, n.Backend, n.closeStore = raw, backend, closeStore
+	store = raw
+	if opts.WrapStore != nil {
+		store = opts.WrapStore(raw)
+	}
+	n.Store = store
+	appMetrics.queueStore = store
+
+	servers, err := startServers(store, compiled, state, logger, nil, appMetrics, upsert, del, func() {})
+	if err != nil {
+		_ = closeStore()
+		return nil, err
+	}
+	for _, s := range servers {
+		hs, ok := s.(*http.Server)
+		if !ok {
+			continue
+		}
+		n.Servers = append(n.Servers, VerifServer{Addr: hs.Addr, Handler: hs.Handler})
+		if ps, ok := hs.Handler.(*pullapi.Server); ok {
+			// the same three assignments startServers makes for the gRPC worker
+			w := workerapi.NewServer(ps)
+			w.ResolveRoute = state.resolvePull
+			w.Authorize = state.authorizeWorker
+			if compiled.PullAPI.MaxBatch > 0 {
+				w.MaxLeaseBatch = compiled.PullAPI.MaxBatch
+			}
+			n.Worker = w
+		}
+	}
+	// No accept loop and no socket outlives construction; handlers stay usable.
+	for _, s := range servers {
+		ctx, cancel := context.WithCancel(context.Background())
+		cancel()
+		_ = s.Shutdown(ctx)
+	}
+
+	if compiled.HasDeliverRoutes {
+		routes := buildDispatchRoutes(compiled)
+		policy := dispatcher.EgressPolicy{
+			HTTPSOnly:           compiled.Defaults.EgressPolicy.HTTPSOnly,
+			Redirects:           compiled.Defaults.EgressPolicy.Redirects,
+			DNSRebindProtection: compiled.Defaults.EgressPolicy.DNSRebindProtection,
+			Allow:               mapEgressRules(compiled.Defaults.EgressPolicy.Allow),
+			Deny:                mapEgressRules(compiled.Defaults.EgressPolicy.Deny),
+		}
+		client := opts.HTTPClient
+		if client == nil {
+			client = tracingHTTPClient(compiled.Observability.TracingEnabled)
+		}
+		deliverer := dispatcher.NewHTTPDeliverer(client, policy)
+		if opts.Resolver != nil {
+			deliverer.Resolver = opts.Resolver
+		}
+		n.Deliverer = deliverer
+		for _, rt := range routes {
+			if len(rt.Targets) == 0 {
+				continue
+			}
+			c := rt.Concurrency
+			if c <= 0 {
+				c = 1
+			}
+			n.Workers += c
+		}
+		n.Push = &dispatcher.PushDispatcher{
+			Store:     store,
+			Deliverer: deliverer,
+			Routes:    routes,
+			Logger:    logger,
+			ObserveAttempt: func(outcome queue.AttemptOutcome) {
+				appMetrics.observeDeliveryAttempt(outcome)
+			},
+			ObserveDead: func(reason string) {
+				appMetrics.observeDeliveryDeadReason(reason)
+			},
+		}
+		if !opts.NoDispatcher {
+			n.Push.Start()
+		}
+	}
+	return n, nil
+}
+
+// Reload is reloadNow from run().
+func (n *VerifNode) Reload(trigger string) bool {
+	n.reloadMu.Lock()
+	defer n.reloadMu.Unlock()
+	updated, ok := reloadConfig(n.configPath, n.running, n.state, n.logger, trigger)
+	if ok {
+		n.running = updated
+	}
+	return ok
+}
+
+// Running returns the configuration currently in force.
+func (n *VerifNode) Running() config.Compiled {
+	n.reloadMu.Lock()
+	defer n.reloadMu.Unlock()
+	return n.running
+}
+
+// CloseStore closes the queue store (used when a node is retired).
+func (n *VerifNode) CloseStore() error {
+	if n.closeStore != nil {
+		return n.closeStore()
+	}
+	return nil
+}
+
+// VerifWriteFileAtomic / VerifSyncDir expose the config-file replacement used
+// by the management API for the W-file world.
+func VerifWriteFileAtomic(path string, data []byte) error { return writeFileAtomic(path, data) }
